@@ -6,6 +6,7 @@ mod gen;
 mod rng;
 mod p15;
 mod p16;
+mod p17;
 mod p08;
 mod props;
 mod tables;
@@ -105,6 +106,7 @@ fn main() {
     let batch = match args.id.as_str() {
         "C15" => p15::run(&args),
         "C16" => p16::run(&args),
+        "C17" => p17::run(&args),
         "C08" => p08::run08(&args),
         "C09" => p08::run09(&args),
         "C10" => p08::run10(&args),
